@@ -12,6 +12,8 @@ import (
 )
 
 type Node struct {
+	syncPolls int // ledger sync polls made so far (rotates the polled peer)
+
 	echoLate []*Payload // own (pre)commits of the previous incarnation that may still come back
 	ownSent []*Payload // everything this (amnesia) validator ever broadcast, all incarnations
 
